@@ -615,7 +615,14 @@ func (g *G) exprMin1(ty ts.Type, depth int, minLen int) ts.Expr {
 			g.tag("not")
 			inner := g.expr(ts.TBool, depth-1)
 			if _, isNot := inner.(ts.Not); isNot {
-				inner = ts.Group{E: inner}
+				if g.chance("double-negation-grouped", 50) {
+					inner = ts.Group{E: inner} // !(!x)
+				} else {
+					g.tag("double-negation") // !!x
+				}
+			} else if g.chance("double-negation", 12) {
+				g.tag("double-negation")
+				return ts.Not{E: ts.Not{E: inner}}
 			}
 			return ts.Not{E: inner}
 		case 7:
@@ -796,6 +803,39 @@ func (g *G) multiFuncs() []*funcInfo {
 }
 
 func (g *G) multiDecl(depth int) []ts.Stmt {
+	// old, fresh := e1, e2 with an existing variable of the SAME block (legal next to a new name): all values are
+	// evaluated before anything is stored, so the new variable may receive the OLD value of the re-used one
+	if g.chance("redeclare", 22) {
+		olds := []*varInfo{}
+		for _, w := range g.writable() {
+			if w.Block == g.curBlock() && !w.Ty.IsSlice() && w.MinLen == 0 && !(w.Global && g.cur != nil) {
+				olds = append(olds, w)
+			}
+		}
+		if len(olds) > 0 {
+			old := olds[g.intn("redeclared", 0, len(olds)-1)]
+			fresh := g.freshName()
+			var fv ts.Expr = ts.VarRef{Name: old.Name, Ty: old.Ty}
+			switch g.pick("old-value-form", 40, 25, 35) {
+			case 1:
+				fv = ts.Group{E: fv}
+			case 2:
+				if old.Ty == ts.TInt {
+					fv = ts.Bin{Op: "+", Ty: ts.TInt, L: fv, R: ts.IntLit{V: 0}}
+				} else if old.Ty == ts.TString {
+					fv = ts.Bin{Op: "+", Ty: ts.TString, L: fv, R: ts.StrLit{V: ""}}
+				}
+			}
+			ov := g.expr(old.Ty, 1)
+			d := ts.VarDecl{Names: []string{old.Name, fresh}, Ty: old.Ty, Tys: []ts.Type{old.Ty, old.Ty}, Vals: []ts.Expr{ov, fv}, Reuse: []bool{true, false}, Form: ts.DeclShort}
+			if g.chance("redeclare-second", 50) {
+				d = ts.VarDecl{Names: []string{fresh, old.Name}, Ty: old.Ty, Tys: []ts.Type{old.Ty, old.Ty}, Vals: []ts.Expr{fv, ov}, Reuse: []bool{false, true}, Form: ts.DeclShort}
+			}
+			g.defineVar(fresh, old.Ty, 0)
+			g.tag("redeclare-in-multi-define")
+			return []ts.Stmt{d}
+		}
+	}
 	mf := g.multiFuncs()
 	if len(mf) > 0 && g.chance("decl-from-call", 50) {
 		f := mf[g.intn("mf", 0, len(mf)-1)]
@@ -1529,7 +1569,18 @@ func (g *G) copyStmt() []ts.Stmt {
 		}
 	}
 	g.tag("copy")
-	if g.chance("copy-bare", 25) {
+	lens := g.lenTargets()
+	if len(lens) > 0 && g.chance("copy-then-len", 30) {
+		// the count next to another length in one statement: the result of copy must not live in a shared register
+		o := lens[g.intn("copy-len-of", 0, len(lens)-1)]
+		l := ts.Len{X: ts.VarRef{Name: o.Name, Ty: o.Ty}}
+		g.tag("copy-with-len-in-one-statement")
+		if g.chance("copy-len-print", 50) {
+			out = append(out, ts.Print{Args: []ts.Expr{cp, l}})
+		} else {
+			out = append(out, ts.Print{Args: []ts.Expr{ts.Bin{Op: "+", Ty: ts.TInt, L: ts.Bin{Op: "*", Ty: ts.TInt, L: cp, R: ts.IntLit{V: 100}}, R: l}}})
+		}
+	} else if g.chance("copy-bare", 25) {
 		out = append(out, ts.ExprStmt{E: cp})
 		g.tag("copy-as-statement")
 	} else if g.chance("copy-print", 50) {
